@@ -7,7 +7,6 @@
      (entjson ctx_to_json ((key rval)..)) -> (ok json) | (err E)
      (entjson parse none|(some sty) json) -> (ok rval) | (err E)
      (entjson ctx_parse none|(some sty) json) -> (ok ((key rval) ...)) | (err E)
-     (entjson ctx_to_json_fixed ((key rval)..)) -> the serialiser with the proposed repair
      (entjson ent_to_json ENT)            -> (ok json) | (err E)
      (entjson ent_parse SCHEMA json)      -> (ok ENT) | (err E)
      (entjson store_to_json (ENT ...))    -> (ok json) | (err E)
@@ -226,8 +225,6 @@ Definition run_entjson (cmd : string) (args : list sexp) : option sexp :=
             | Some t, Some j => e_jr e_rval (json_to_value t j)
             | _, _ => bad_input
             end
-        | [SY "ctx_to_json_fixed"; ps] =>
-            match d_pairs ps with Some l => e_jr e_json (context_to_json_fixed l) | None => bad_input end
         | [SY "ent_to_json"; e] =>
             match d_entity e with Some e => e_jr e_json (entity_to_json e) | None => bad_input end
         | [SY "ent_parse"; sch; j] =>
